@@ -56,6 +56,37 @@ func handPicked() []core.Case {
 	// the same volume followed by a second volume: a file reaching into the next volume
 	two := append(row18(0x800), row18(0x1000)...)
 	cs = append(cs, hexCase("row18", two))
+	// volumes filled to their last byte whose last file is small: the file walk is bounded by Length-24 and a
+	// header of 24 (32) bytes must still be found when it starts exactly there (seeded defect c04-6 used the
+	// 32-byte constant; finding 40: the unrepaired bound `offset < Length-24` skipped a 24-byte file at the end)
+	for _, n := range []int{24, 25, 28, 31, 32, 33, 40} {
+		for _, k := range []string{"raw", "pad"} {
+			last := leafFile(9, 1, rep(0x33, n-24))
+			if k == "pad" {
+				last = hu.PadFile(n)
+			}
+			fv := &hu.FV{ZV: make([]byte, 16), Attrs: 0x0004FEFF, Rev: 2, Blocks: []hu.Block{{Count: 1, Size: 8}},
+				Files: []*hu.File{leafFile(1, 1, rep(0x5A, 40)), last}}
+			for pre := 0; fv.Size()%8 != 0 && pre < 8; pre++ { // lengthen the first file until the volume is a multiple of 8
+				fv.Files[0] = leafFile(1, 1, rep(0x5A, 41+pre))
+			}
+			if fv.Size()%8 != 0 {
+				continue
+			}
+			fv.Blocks[0].Count = uint32(fv.Size() / 8)
+			kind := "full-volume-last"
+			if n == 24 {
+				kind = "full-volume-last-24"
+			}
+			cs = append(cs, hexCase(kind, fv.Ser()))
+			// alone in its volume
+			one := &hu.FV{ZV: make([]byte, 16), Attrs: 0x0004FEFF, Rev: 2, Blocks: []hu.Block{{Count: 1, Size: 8}}, Files: []*hu.File{last}}
+			if one.Size()%8 == 0 {
+				one.Blocks[0].Count = uint32(one.Size() / 8)
+				cs = append(cs, hexCase(kind, one.Ser()))
+			}
+		}
+	}
 	// FindFirmwareVolumeOffset quirk: a signature at offset 32 (volume would start at −8) is not a volume
 	q := rep(0xFF, 256)
 	copy(q[32:], "_FVH")
